@@ -79,7 +79,7 @@ m = {
  ],
  "checks": [],
  "not_applicable": [{"property_id":k,"reason":v} for k,v in na.items()],
- "notes": "All checks: ./check <ID> <quick|thorough>; env VERIF_SEED (default 1), VERIF_CASES, VERIF_WORKERS, VERIF_WALLCAP_S. Exit 0 = held, 1 = VIOLATION line(s), 2 = infrastructure trouble. Replay: ./check --replay <file>. Known / fixed findings: /verif/known_findings.json. See DESIGN.md.",
+ "notes": "All checks: ./check <ID> <quick|thorough>; env VERIF_SEED (default 1), VERIF_CASES, VERIF_WORKERS, VERIF_WALLCAP_S, VERIF_CASE_STALL_S (a worker silent for that long is killed: exit 2). Exit 0 = held, 1 = VIOLATION line(s), 2 = infrastructure trouble. Replay: ./check --replay <file>. Known / fixed findings: /verif/known_findings.json. See DESIGN.md.",
 }
 for pid,(lvl,eng,text,note,tech,ref) in checks.items():
     m["checks"].append({"property_id":pid,"quick_cmd":f"./check {pid} quick","thorough_cmd":f"./check {pid} thorough",
